@@ -379,3 +379,13 @@ Theorem C16_gen_read_columns_is_model : forall kv l fs,
                 end
     end.
 Proof. exact gen_read_columns_eq. Qed.
+
+(* parse_scsv_schema: for EVERY string the generated parser raises exactly when parse_terse does (same exception)
+   and otherwise returns a dictionary standing for the schema parse_terse returns *)
+Theorem C16_gen_parse_terse_is_model : forall O t,
+  match gen_parse_scsv_schema O (PStr t), parse_terse t with
+  | Ok p, Ok s => abs_schema p = Some s
+  | Err e, Err e' => e = e'
+  | _, _ => False
+  end.
+Proof. exact gen_parse_terse_eq. Qed.
